@@ -49,7 +49,8 @@ def mutated_mutable_defaults(fi: FuncInfo) -> List[Tuple[ast.AST, str]]:
 def accepted_not_threaded(fi: FuncInfo) -> List[Tuple[ast.AST, str]]:
     params = [p for p in fi.params if p not in ("self", "cls")]
     read = {n.id for n in walk_local(fi.node, into_nested=True) if isinstance(n, ast.Name) and isinstance(n.ctx, ast.Load)}
-    unused = [p for p in params if p not in read and not p.startswith("_")]
+    folded = {opt for q, opt, _d in (getattr(fi.module, "specialised", None) or []) if q == fi.qual}   # analysed at their default: not "unread"
+    unused = [p for p in params if p not in read and not p.startswith("_") and p not in folded]
     if not unused:
         return []
     a = fi.node.args
